@@ -116,3 +116,126 @@ def unmarshal_measured(data):
     finally:
         tracemalloc.stop()
     return {'outcome': outcome, 'peak': peak, 'len': len(data), 'events': count[0]}
+
+
+# ---------------------------------------------------------------- calls of the API-session check (bounded.session_history)
+def _cls(classname):
+    from pamqp import commands
+    obj = commands
+    for p in classname.split('.'):
+        obj = getattr(obj, p)
+    return obj
+
+
+def session_marshal(classname, attrs, channel):
+    from pamqp import frame
+    return frame.marshal(_cls(classname)(**attrs), channel)
+
+
+def session_texts(classname, attrs):
+    """repr / str / format / comparison / hash-free dunder calls of one instance (none of which may change anything)."""
+    obj = _cls(classname)(**attrs)
+    same = obj == obj
+    return [isinstance(repr(obj), str), isinstance(str(obj), str), isinstance(format(obj), str), bool(same)]
+
+
+def session_views(classname, attrs):
+    """The mapping views of one instance."""
+    cls = _cls(classname)
+    obj = cls(**attrs)
+    names = [k for k, _ in iter(obj)]
+    return {'iter': names, 'values': [v for _, v in iter(obj)], 'len': len(obj),
+            'attributes': list(cls.attributes()), 'contains': [n in obj for n in names],
+            'types': [cls.amqp_type(n) for n in names], 'dict_keys': list(dict(obj)), 'marshal': obj.marshal()}
+
+
+def session_default(classname):
+    """Default construction; the returned snapshot is taken before the instance's tables are scribbled on."""
+    obj = _cls(classname)()
+    snap = {k: (dict(v) if isinstance(v, dict) else v) for k, v in iter(obj)}
+    for k, v in iter(obj):
+        if isinstance(v, dict):
+            v['x-session-scribble'] = 1
+    return snap
+
+
+def session_header(mutate):
+    from pamqp import header
+    h = header.ContentHeader()
+    snap = [dict(iter(h.properties)), h.marshal(), h.class_id, h.weight, h.body_size]
+    if mutate:
+        h.properties.delivery_mode = 2
+        h.properties.content_type = 'text/plain'
+        h.properties.headers = {'x-retry': 1}
+    return snap
+
+
+def session_unmarshal(data):
+    """frame.unmarshal; the snapshot is taken before every table / property object of the result is scribbled on."""
+    from pyvc import values
+    from pamqp import frame
+    n, ch, obj = frame.unmarshal(data)
+    snap = values.encode((n, ch, obj))
+    for target in (obj, getattr(obj, 'properties', None)):
+        if target is None or not hasattr(target, '__slots__'):
+            continue
+        for k in target.__slots__:
+            v = getattr(target, k, None)
+            if isinstance(v, dict):
+                v['x-session-scribble'] = 1
+            elif isinstance(v, list):
+                v.append('x-session-scribble')
+    if hasattr(obj, 'properties') and hasattr(obj.properties, 'message_id'):
+        obj.properties.message_id = 'scribbled'
+    return snap
+
+
+def session_table(table):
+    """encode.field_table of a table that may hold an unencodable value, then of the same object repaired."""
+    from pamqp import encode
+    try:
+        first = encode.field_table(table)
+    except (TypeError, ValueError, OverflowError) as exc:
+        first = type(exc).__name__
+    table.pop('bad', None)
+    return [first, encode.field_table(table)]
+
+
+# ---------------------------------------------------------------- fresh-process probes (props/ground2.py)
+def import_state():
+    """What importing the package leaves behind, as JSON-able data."""
+    from pamqp import commands, constants, encode, exceptions
+    return {
+        'legacy_switch': encode.DEPRECATED_RABBITMQ_SUPPORT,
+        'index_mapping': sorted('%08x:%s' % (k, v.name) for k, v in commands.INDEX_MAPPING.items()),
+        'reply_codes': sorted('%d:%s' % (k, v.__name__) for k, v in exceptions.CLASS_MAPPING.items()),
+        'constants': sorted('%s=%r' % (k, getattr(constants, k)) for k in dir(constants)
+                            if k.isupper() and isinstance(getattr(constants, k), (int, str, bytes, float))),
+        'domain_regex': sorted('%s=%s' % (k, v.pattern) for k, v in constants.DOMAIN_REGEX.items()),
+        'table_integer_200': encode.table_integer(200).hex(), 'table_integer_40000': encode.table_integer(40000).hex(),
+    }
+
+
+def reply_code_use():
+    from pamqp import exceptions as ex
+    before = dict(ex.CLASS_MAPPING)
+    subs = [type('App' + cls.__name__, (cls,), {}) for cls in before.values()]
+    changed = sorted(code for code, cls in before.items() if ex.CLASS_MAPPING.get(code) is not cls)
+    changed += sorted(code for code in ex.CLASS_MAPPING if code not in before)
+    for code, cls in before.items():
+        ex.CLASS_MAPPING[code] = cls
+    bad, cross = [], []
+    for code, cls in before.items():
+        for how in ('bare', 'text'):
+            try:
+                if how == 'bare':
+                    raise cls
+                raise cls('reply text')
+            except cls:
+                pass
+            except BaseException as exc:
+                bad.append('%d %s: %s' % (code, how, type(exc).__name__))
+        for code2, other in before.items():
+            if other is not cls and issubclass(cls, other):
+                cross.append('%d caught as %d' % (code, code2))
+    return {'changed_by_subclassing': changed, 'not_raisable': bad, 'cross_caught': cross, 'subclasses': len(subs)}
